@@ -59,4 +59,6 @@ Fold(colors, c) == IF colors = 8 /\ c > 7 /\ c < 16 THEN c - 8 ELSE c
 Want(colors, c) == LET k == Fold(colors, c) IN IF k >= 0 /\ k < colors THEN <<1, k>> ELSE <<0, 0>>
 ColorExpected(colors, fg, bg) == <<Want(colors, fg), Want(colors, bg)>>
 ColorDecoded(out) == LET t == TT!Feed(TT!NewTerm(2, 1, "utf8", <<>>, {}, {}, TT!NoQuirks), out) IN <<t.fg, t.bg>>
+\* the colour string is nothing but well-formed sequences the reference terminal knows
+ColorClean(out) == LET t == TT!Feed(TT!NewTerm(2, 1, "utf8", <<>>, {}, {}, TT!NoQuirks), out) IN t.bad = {} /\ t.unk = {} /\ t.lx = "gnd"
 =============================================================================
